@@ -126,7 +126,7 @@ func runC02(c *vf.Case) {
 	allGE2, wouldblockMidAll, partialReads, partialWrites, errCompletions := 0, 0, 0, 0, 0
 	peerDead := false
 	overlapOps := 0
-	cancelled := 0
+	cancelled, viaBB := 0, 0
 	bb := sonic.NewByteBuffer()
 
 	verifyRead := func(api string, buf []byte, all bool, n int, err error) {
@@ -250,6 +250,25 @@ func runC02(c *vf.Case) {
 		restore := atLimit(api)
 		if all {
 			o.FD.AsyncReadAll(buf, cb)
+		} else if r.Chance(1, 5) {
+			// the same read through a ByteBuffer (the way the codecs read): exactly the n reported bytes appear in
+			// its write area, in stream order
+			rb := sonic.NewByteBuffer()
+			rb.Reserve(size)
+			c.Logf("    (through ByteBuffer.AsyncReadFrom)")
+			rb.AsyncReadFrom(o.FD, func(err error, n int) {
+				if err == nil && rb.WriteLen() != n {
+					c.Failf("bytebuffer-readfrom-count-differs/"+kind.String(), "AsyncReadFrom reported n=%d, the write area holds %d bytes", n, rb.WriteLen())
+				}
+				rb.Commit(n)
+				// the ByteBuffer offers its whole capacity to the read, which may be more than was reserved
+				got := make([]byte, max(n, 0))
+				copy(got, rb.Data())
+				rdInFlight = false
+				c.Logf("    <- ByteBuffer.AsyncReadFrom err=%v n=%d", err, n)
+				verifyRead("ByteBuffer.AsyncReadFrom", got, false, n, err)
+			})
+			viaBB++
 		} else {
 			o.FD.AsyncRead(buf, cb)
 		}
@@ -537,6 +556,7 @@ func runC02(c *vf.Case) {
 	}
 	c.Count("operations_started_at_the_dispatch_limit", startedAtLimit)
 	c.Count("operations_cancelled_in_flight", cancelled)
+	c.Count("reads_through_bytebuffer_asyncreadfrom", viaBB)
 	c.Count("all_ops_needing_ge2_wakeups", allGE2)
 	c.Count("wouldblock_mid_writeall", wouldblockMidAll)
 	c.Count("partial_reads", partialReads)
